@@ -72,7 +72,6 @@ Variable p : position.
 Hypothesis Hhint : forall m q, okm m -> try_move basis p m = Some q -> In q (children basis p).
 Let Heq a b := move_equal_try basis p a b.
 Let Hnp m := all_moves_okm p m.
-Hypothesis Hlen : Z.of_nat (length (all_moves p)) <= 690.
 
 Let len := Z.of_nat (length (all_moves p)).
 
@@ -103,7 +102,7 @@ Record GI (seen : list position) (g : mgen) : Prop := {
 
 Lemma GI_new s pv ply depth : Forall okm pv -> GI [] (new_gen s None pv ply depth p).
 Proof.
-  clear Hhint Hlen. intros Hpv. constructor; cbn [new_gen g_p g_te g_tec g_pv g_i g_r g_ms option_map]; try reflexivity; try assumption; try lia.
+  clear Hhint. intros Hpv. constructor; cbn [new_gen g_p g_te g_tec g_pv g_i g_r g_ms option_map]; try reflexivity; try assumption; try lia.
   - unfold okm, move0; cbn. discriminate.
 Qed.
 
@@ -258,5 +257,14 @@ Proof.
         -- apply step_some; [assumption|assumption| |apply LT2|apply LT2].
            apply G2; [|intros; right; assumption]. intros q0 T. inversion T. left; reflexivity.
         -- apply SKIP. intros q T. discriminate.
+Qed.
+
+(* the fuel the model gives its loops is always enough *)
+Lemma gfuel_ok seen g : GI seen g -> len + 6 - g_i g < Z.of_nat (gfuel g).
+Proof.
+  clear Hhint. intros G. pose proof (gi_i0 _ _ G) as I0. unfold gfuel.
+  destruct (Z_le_gt_dec 4 (g_i g)) as [H4|H4].
+  - destruct (gi_ms _ _ G H4) as (ms & E & P & _). rewrite E. rewrite (Permutation_length P). unfold len. lia.
+  - rewrite (gi_ms_none _ _ G ltac:(lia)), (gi_p _ _ G). unfold len. lia.
 Qed.
 End Gen.
